@@ -2,7 +2,7 @@
 From Coq Require Import ZArith List Bool Sorting.Permutation Sorting.Sorted.
 From Flocq Require Import IEEE754.BinarySingleNaN.
 From Rscel Require Import Base.Prims Base.F64 Model.Value Model.Ops Model.Funcs Spec.Wf.
-From Rscel Require Import Proofs.F64Facts Proofs.OpsOrder.
+From Rscel Require Import Proofs.F64Facts Proofs.OpsOrder Proofs.EqMaps.
 Import ListNotations.
 Open Scope Z_scope.
 
@@ -16,6 +16,12 @@ Theorem C04_eq_refl_partial : forall n v,
   (vsize v < n)%nat -> wf v = true -> plain v = true -> eq_ v v = VBool true.
 Proof. exact eq_refl_plain. Qed.
 Print Assumptions C04_eq_refl_partial.
+
+(** == is reflexive on every NaN-free data value: scalars, lists and maps, nested to any depth. *)
+Theorem C04_eq_refl_data : forall n v,
+  (vsize v < n)%nat -> wf v = true -> data v = true -> eq_ v v = VBool true.
+Proof. exact eq_refl_data. Qed.
+Print Assumptions C04_eq_refl_data.
 
 (** == is symmetric on scalar operands of any two types (collections: partial). *)
 Theorem C04_eq_sym_partial : forall a b,
